@@ -299,14 +299,16 @@ class ArrayExpr(SingletonExpr):
 
     @functools.cached_property
     def _cached_keys(self):
-        # Derives keys by *lowering*, so it is only meaningful on expressions
-        # that are already lowered (all current callers hit this during
-        # `_layer()`, where the tree is lowered by construction). Contrast
-        # `Array._cached_dask_keys` in _collection.py, which must never lower:
-        # collection keys are the raw root name, pinned at materialization.
-        out = self.lower_completely()
+        # This node's own ``(name, *block)`` grid.  On a lowered tree (the
+        # usual caller is a parent's ``_layer()``) that is what the node's
+        # layer defines; on a raw node it is what materialization pins its
+        # graph to (``__dask_graph__`` / ``ArrayExpr._layer``), which is what a
+        # parent's layer must refer to when dask walks a raw expression node
+        # by node (``dask.optimize``) -- not the name some other lowering of
+        # this node would have.
+        out = self
 
-        name, chunks, numblocks = out.name, out.chunks, out.numblocks
+        name, chunks, numblocks = out._name, out.chunks, out.numblocks
 
         def keys(*args):
             if not chunks:
